@@ -164,7 +164,9 @@ def walk_exact(standin, path, x0):
             name = CONVERTER[a + b]
             try:
                 v = exact_call(name, v)
-            except ArithmeticError as exc:
+            except NotExact:
+                raise
+            except Exception as exc:
                 return ("exception/%s/%s" % (name, type(exc).__name__),
                         str(from_x(b, x0, r)), repr(exc), "")
             if v != from_x(b, x0, r):
@@ -204,7 +206,9 @@ def mono_exact(standin, name, n, k):
     with standins(*STANDINS[standin]):
         try:
             v0, v1 = exact_call(name, t0), exact_call(name, t1)
-        except ArithmeticError as exc:
+        except NotExact:
+            raise
+        except Exception as exc:
             return ("exception/%s/%s" % (name, type(exc).__name__), None,
                     repr(exc), "")
     if k == 0 and v0 != 0:
@@ -273,7 +277,13 @@ def run_shard(shard):
     if part == "exact":
         for path, x0 in itertools.product(paths(par["maxlen"]), par["x0"]):
             res.case(nontrivial=x0 != 0)
-            bad = walk_exact(shard[2], path, x0)
+            try:
+                bad = walk_exact(shard[2], path, x0)
+            except NotExact:
+                # a converter that leaves the rationals (e.g. converts to
+                # float64) can still be right: the float pass judges it
+                res.count("exact_pass_not_applicable")
+                continue
             case = dict(part=part, standin=shard[2], path=path, x0=frac(x0))
             if bad:
                 report(res, bad, case)
@@ -284,15 +294,22 @@ def run_shard(shard):
             bad = walk_float(shard[2], path, par["x0"])
             for i, x0 in enumerate(par["x0"]):
                 res.case(nontrivial=x0 != 0)
+                # the whole vector is one call: a failure may need the
+                # other elements (an exception raised for one of them)
                 case = dict(part=part, container=shard[2], path=path,
-                            x0=frac(x0))
+                            x0=frac(x0), index=i,
+                            x0s=[frac(x) for x in par["x0"]])
                 if i in bad:
                     report(res, bad[i], case)
     elif part == "mono-exact":
         for name, k in itertools.product(CONVERTER.values(),
                                          range(par["mono"] - 1)):
             res.case(nontrivial=True)
-            bad = mono_exact(shard[2], name, par["mono"], k)
+            try:
+                bad = mono_exact(shard[2], name, par["mono"], k)
+            except NotExact:
+                res.count("exact_pass_not_applicable")
+                continue
             case = dict(part=part, standin=shard[2], func=name,
                         n=par["mono"], k=k)
             if bad:
@@ -360,7 +377,7 @@ def replay(case):
         bads = [walk_exact(case["standin"], case["path"], F(case["x0"]))]
     elif part == "float":
         bads = [walk_float(case["container"], case["path"],
-                           [F(case["x0"])]).get(0)]
+                           [F(x) for x in case["x0s"]]).get(case["index"])]
     elif part == "mono-exact":
         bads = [mono_exact(case["standin"], case["func"], case["n"],
                            case["k"])]
